@@ -186,6 +186,19 @@ static void md5_compress(std::uint32_t state[4], const std::uint8_t* buf)
     state[3] = state[3] + d;
 }
 
+#if defined(TLX_VERIF)
+// verification hook (off unless TLX_VERIF is defined): direct access to the
+// compression function, and optional redirection of its calls to a recorder.
+void tlx_verif_real_md5_compress(std::uint32_t* state, const std::uint8_t* buf)
+{
+    md5_compress(state, buf);
+}
+#if defined(TLX_VERIF_DIGEST_HOOK)
+void tlx_verif_md5_compress(std::uint32_t* state, const std::uint8_t* buf);
+#define md5_compress tlx_verif_md5_compress
+#endif
+#endif // TLX_VERIF
+
 } // namespace digest_detail
 
 MD5::MD5()
